@@ -17,6 +17,7 @@ MsgsA11   == [s \in {"A", "B"} |-> IF s = "A" THEN <<Mg(1, 1), Mg(1, 1)>> ELSE <
 MsgsBoth  == [s \in {"A", "B"} |-> IF s = "A" THEN <<Mg(1, 1), Mg(1, 2)>> ELSE <<Mg(1, 2)>>]
 MsgsA123  == [s \in {"A", "B"} |-> IF s = "A" THEN <<Mg(1, 1), Mg(1, 2), Mg(1, 3)>> ELSE <<Mg(1, 1)>>]
 MsgsPR2    == [s \in {"A", "B"} |-> IF s = "A" THEN <<Mg(2, 1), Mg(1, 1)>> ELSE <<>>]
+MsgsPR3    == [s \in {"A", "B"} |-> IF s = "A" THEN <<Mg(2, 3), Mg(1, 1), Mg(2, 1)>> ELSE <<>>]
 \* two channels: messages alternate
 MsgsTwoCh == [s \in {"A", "B"} |-> IF s = "A" THEN <<Mg(1, 1), Mg(2, 2), Mg(1, 2), Mg(2, 1)>> ELSE <<>>]
 MsgsTwoCh3 == [s \in {"A", "B"} |-> IF s = "A" THEN <<Mg(2, 2), Mg(1, 1), Mg(2, 1)>> ELSE <<>>]
